@@ -18,14 +18,16 @@ type schedStep struct {
 	Arg    string `json:"arg"`
 	Target int    `json:"target"`
 	Window bool   `json:"window"`
+	Burst  bool   `json:"burst"` // issued right after the previous step, without waiting for quiescence
 	Hard   int    `json:"hard"`
 	Soft   int    `json:"soft"`
 	Credit int    `json:"credit"`
 }
 
 type schedInput struct {
-	N   int         `json:"n"`
-	Beh []schedStep `json:"beh"`
+	N     int         `json:"n"`
+	Beh   []schedStep `json:"beh"`
+	Procs int         `json:"procs"` // GOMAXPROCS for this schedule (0: leave as started)
 }
 
 type pendOp struct {
@@ -46,6 +48,11 @@ func pendingIDs(p map[int]*pendOp) []int {
 
 // runSched executes one quiescence-stepped schedule and returns the recorded history.
 func runSched(in schedInput) map[string]any {
+	if in.Procs > 0 {
+		// with one P the steps of a burst, run synchronously by this goroutine, are atomic with respect
+		// to the goroutines they wake; with several the other interleavings are sampled
+		defer runtime.GOMAXPROCS(runtime.GOMAXPROCS(in.Procs))
+	}
 	c0 := in.Beh[0]
 	q, err := newContainer(c0.Arg, c0.Hard, c0.Soft, c0.Credit)
 	if err != nil {
@@ -69,14 +76,45 @@ func runSched(in schedInput) map[string]any {
 	for k := 1; k < len(in.Beh); k++ {
 		st := in.Beh[k]
 		id := k + 1 // the spec's Id: position in hist
-		switch st.Op {
-		case "cancel":
+		// inside a burst (this step is followed by a burst step, or is one) nothing yields between the
+		// steps: non-blocking operations run synchronously in this goroutine, no quiescent observation
+		inBurst := st.Burst || (k+1 < len(in.Beh) && in.Beh[k+1].Burst)
+		moreBurst := k+1 < len(in.Beh) && in.Beh[k+1].Burst
+		switch {
+		case st.Op == "cancel":
 			rec.Log(rt.Event{"ev": "cancel", "id": st.Target})
 			pend[st.Target].cancel()
-			if _, err := rt.Quiesce(); err != nil {
-				return inconclusive("no quiescence after cancel")
+			if in.Beh[k-1].Window {
+				// the target is held at the yield point (it holds the mutex): let the helper goroutine
+				// run into the mutex, then let the target park
+				if _, err := rt.Quiesce(); err != nil {
+					return inconclusive("no quiescence after cancel")
+				}
+				g.Disarm(window)
+				if moreBurst {
+					if _, err := rt.Quiesce(); err != nil {
+						return inconclusive("no quiescence after cancel")
+					}
+					continue
+				}
+			} else if moreBurst {
+				continue
 			}
-			g.Disarm(window) // if the target was held in the window it parks only now
+		case inBurst && !isBlockingOp(st.Op):
+			op, arg := st.Op, st.Arg
+			rec.Log(rt.Event{"ev": "call", "id": id, "op": op, "arg": arg})
+			r := func() (res string) {
+				defer func() {
+					if p := recover(); p != nil {
+						res = fmt.Sprintf("panic:%v", p)
+					}
+				}()
+				return q.Do(context.Background(), op, arg)
+			}()
+			rec.Log(rt.Event{"ev": "ret", "id": id, "res": r})
+			if moreBurst {
+				continue
+			}
 		default:
 			if which == "deque" && dequeBlocking[st.Op] {
 				// which of several blocked operations an item resolves is the scheduler's choice, so the
@@ -111,6 +149,13 @@ func runSched(in schedInput) map[string]any {
 				}
 				continue // the next step cancels it; no quiescent observation inside the window
 			}
+			if moreBurst {
+				// a blocking operation started at the head of a burst: let it reach its parking place first
+				if _, err := rt.Quiesce(); err != nil {
+					return inconclusive(fmt.Sprintf("no quiescence after step %d", k))
+				}
+				continue
+			}
 		}
 		if _, err := rt.Quiesce(); err != nil {
 			return inconclusive(fmt.Sprintf("no quiescence after step %d", k))
@@ -124,6 +169,10 @@ func runSched(in schedInput) map[string]any {
 		rec.Log(rt.Event{"ev": "quiescent", "blocked": pendingIDs(pend), "len": q.Len()})
 	}
 	return map[string]any{"n": in.N, "ok": true, "hist": append(hist, rec.Events()...)}
+}
+
+func isBlockingOp(op string) bool {
+	return dequeBlocking[op] || op == "wait" || op == "drecv" || op == "badd"
 }
 
 var dequeBlocking = map[string]bool{"wfront": true, "wback": true, "drecv": true, "wpushf": true, "wpushb": true, "dsend": true}
